@@ -74,7 +74,7 @@ def reparse(kind, text, flags):
 
 
 CONTEXT = {"Field", "FragmentSpread", "InlineFragment", "SelectionSet", "Directive", "Argument", "ObjectField", "VariableDefinition", "FieldDefinition", "InputValueDefinition",
-           "EnumValueDefinition"}
+           "EnumValueDefinition", "OperationTypeDefinition", "Name"}
 _WRAPPED, _WRAPPED_SEEN = [], set()
 # members of type-system definitions: keyword of the enclosing definition, its class, the attribute holding the members
 TS_MEMBER = {"FieldDefinition": ("type", "ObjectTypeDefinition", "fields"),
@@ -100,6 +100,10 @@ def context_reparse(kind, piece, flags):
         pre, post = "query(", "\n){a}"
     elif kind in TS_MEMBER:
         pre, post = TS_MEMBER[kind][0] + " A {", "\n}"
+    elif kind == "OperationTypeDefinition":
+        pre, post = "schema {", "\n}"
+    elif kind == "Name":
+        pre, post = "{ ", "\n}"
     else:
         pre, post = "", "\nscalar A"
     if kind == "ObjectField":
@@ -131,6 +135,19 @@ def context_reparse(kind, piece, flags):
                     and not getattr(d0, "interfaces", None)):
                 odd = cls
             return ("ok", wrapped, node.to_dict(), len(pre), odd)
+        if kind == "OperationTypeDefinition":
+            node = d0.operation_types[0]
+            if not (isinstance(d0, A.SchemaDefinition) and len(d0.operation_types) == 1 and not d0.directives
+                    and d0.loc == (0, len(wrapped))):
+                odd = "schema"
+            return ("ok", wrapped, node.to_dict(), len(pre), odd)
+        if kind == "Name":
+            f = d0.selection_set.selections[0]
+            if not (isinstance(d0, A.OperationDefinition) and len(d0.selection_set.selections) == 1 and isinstance(f, A.Field)
+                    and f.alias is None and not f.arguments and not f.directives and f.selection_set is None
+                    and f.loc == f.name.loc and d0.loc == (0, len(wrapped))):
+                odd = "field"
+            return ("ok", wrapped, f.name.to_dict(), len(pre), odd)
         if kind == "VariableDefinition":
             node = d0.variable_definitions[0]
             ss = d0.selection_set
